@@ -23,6 +23,11 @@ Phases (one kind of task each):
   convex   every strictly convex lattice polygon of the 4x4 grid (one per symmetry class: trapezoids, kites, irregular
            quads, pentagons ... the octagon) under the integer affine maps, listed from every corner in both orientations,
            alone and glued to a triangle: areas, normals, barycentres, angles, sums and means against the exact oracle
+  defaults every function called with each optional argument OMITTED (one at a time in every combination of the other options,
+           and all together) and with the options passed POSITIONALLY in the documented order (every prefix): same observable
+           behaviour (raise / storage class / where stored / values / whole blackboard) as the call passing the documented
+           default by keyword; the documented signatures are pinned in DOC_SIGNATURE and compared with inspect.signature();
+           dense=True <=> numpy storage of the returned attribute, as every docstring says
 """
 from __future__ import annotations
 import itertools, math
@@ -34,13 +39,15 @@ from mc import exact as X
 ID = "C07"
 TECHNIQUE = ("bounded-exhaustive input families x full option cross product vs exact rational oracle; metamorphic "
              "partners (rotations, translations, scales, units of length, relabelings); BFS over request orders of persistent "
-             "attributes; request / deform in place / request again histories")
+             "attributes; request / deform in place / request again histories; argument forms (each option omitted / positional) "
+             "against the pinned documented signatures")
 RULE = ("inputs: every labelled oriented manifold triangle complex on <=5 vertices, one per isomorphism class on 6 "
         "(thorough: all labelled), ZOO specimens incl. planar-faced quad/polygon polyhedra under integer affine maps, "
         "every labelled tetrahedral complex on <=5 vertices + classes on 6; x coordinate alphabets (moment curve, "
         "lattice, generic); x every option vector of every function; x partners; x blackboard states reached by BFS; "
         "x units of length {1, 2^-20, 2^20}; x histories request / in-place deformation / request again; every strictly "
-        "convex lattice polygon of the 4x4 grid (one per symmetry class) x 3 affine maps x every listing rotation x both orientations. "
+        "convex lattice polygon of the 4x4 grid (one per symmetry class) x 3 affine maps x every listing rotation x both orientations; "
+        "x argument forms: every option vector with one option omitted / all omitted / the first k options positional, on 4 surfaces and 2 volumes. "
         "A case = one (mesh, coordinates, phase, option vector / partner / blackboard state); non-trivial = the mesh "
         "has at least one non-degenerate face or cell")
 ASSUMPTIONS = [
@@ -53,14 +60,16 @@ ASSUMPTIONS = [
     "float comparisons: relative 1e-9 (+1e-12 x length unit^dimension)",
     "mesh.edges / volume mesh.faces are taken from the library (construction is C02/C03's subject); their SET is checked against the face/cell list",
     "after an in-place deformation only explicit calls are judged, and a quantity that the library derives from other stored attributes (cotangent from 'angles', cotan_weights from 'cotan', angle_defects from 'angles', vertex_normals from face 'normals', sums and means from 'area' / 'volume') only after those were requested again; the new coordinates are read back from the mesh (transform.* itself is not C07's subject); default config.display_duplicate_attribute_warning only",
+    "documented defaults and parameter order = the signatures of the unchanged tree, pinned in DOC_SIGNATURE (where the prose of a docstring contradicts its own signature - dense of border_normals / triangle_aspect_ratio, name of face_circumcenter - the signature is taken); an omitted option means its documented default, options may be passed positionally in the documented order; dense=True means an ArrayAttribute is returned, dense=False an Attribute (every docstring: 'dense (numpy array) or not (dict)')",
     "units of length are powers of two (2^-20, 2^20) so that the scaled coordinates are exact; face_barycenter = mean of the corners (as documented), polygon area of a planar convex polygon = shoelace / vector area",
 ]
 BOUNDS = {
     "quick": "full option cross product (persistent x dense x zero_border x interpolation x custom normals x n) on one representative per isomorphism class of SURF triangles n<=6 (38) x {lattice, generic, moment} + ZOO (grids and holey grids under affine maps, prisms, cube/pyritohedron/cuboctahedron/truncated octahedron/prisms/pyramids x 3 integer affine maps + bordered variants, octa/icosahedron, tori); every labelled SURF n<=5 (434) x {lattice, generic} with default options; partners: 24 rotations (alternating between 2 translations), scales 2 and 1/2, all relabelings for n<=5 (generic), transpositions + face re-listing otherwise; blackboard BFS depth 2 (x both values of config.display_duplicate_attribute_warning) on 31 meshes; constant interpolation on 24 meshes x 3 blackboard pre-states; TET n<=5 all (27) + TET(6) classes (16) x 3 alphabets, partners, blackboard BFS depth 3; "
              "units 2^-20 and 2^20: as two more partners of every partners task (surfaces and volumes), full option cross product vs oracle on the class representatives n<=5 (generic) + 11 ZOO meshes and on every TET representative (generic), constant interpolation in both units on every interp mesh (empty blackboard); "
              "deformation histories (3 deformations: scale_xyz(2,1,1/2), scale_xyz(1,4,1), last vertex moved by (1,-2,3)) x {one function alone, every function} on the 31 BFS meshes + 3 generic-quad grids and on the TET representatives n>=5; "
-             "convex lattice polygons of the 4x4 grid: all 89 quad classes, the 5 pentagon/hexagon classes of the 3x3 grid and every 4th other class (126 shapes), each under 3 affine maps (all 2k listings under one, 2 under the others) alone and glued to a triangle; ZOO also contains trapezoid / irregular-quad grids",
-    "thorough": "quick + full option cross product on every labelled SURF n<=5 x 3 alphabets; all labelled SURF(6) triangle complexes (12934) x {generic, lattice} and all labelled TET(6) (2422) x {generic, moment} against the oracle (default options); partners with all 24 x 2 rigid motions on every alphabet and larger ZOO; blackboard BFS depth 3 on all class representatives (volumes: depth 4); 5 blackboard pre-states for interpolation; unit-of-length option cross product on all class representatives x {generic, lattice}, both units x 2 pre-states for interpolation, TET x {generic, moment}; deformation histories on all BFS meshes of the tier; all 219 convex lattice polygon classes of the 4x4 grid",
+             "convex lattice polygons of the 4x4 grid: all 89 quad classes, the 5 pentagon/hexagon classes of the 3x3 grid and every 4th other class (126 shapes), each under 3 affine maps (all 2k listings under one, 2 under the others) alone and glued to a triangle; ZOO also contains trapezoid / irregular-quad grids; "
+             "argument forms: 23 functions with options (60 pinned defaults) + 7 without, on a bordered and a closed triangulation (5 vertices), a mixed tri/quad grid, a sheared cube, 2 tetrahedral meshes: full cross product of {default, other values} per option explicitly, each option omitted in every combination of the others, all omitted, every positional prefix over the {default, first other value} vectors; signatures compared with the pinned table",
+    "thorough": "quick + full option cross product on every labelled SURF n<=5 x 3 alphabets; all labelled SURF(6) triangle complexes (12934) x {generic, lattice} and all labelled TET(6) (2422) x {generic, moment} against the oracle (default options); partners with all 24 x 2 rigid motions on every alphabet and larger ZOO; blackboard BFS depth 3 on all class representatives (volumes: depth 4); 5 blackboard pre-states for interpolation; unit-of-length option cross product on all class representatives x {generic, lattice}, both units x 2 pre-states for interpolation, TET x {generic, moment}; deformation histories on all BFS meshes of the tier; all 219 convex lattice polygon classes of the 4x4 grid; argument forms as in quick",
 }
 
 ALPHAS = ("lattice", "generic", "moment")
@@ -232,6 +241,17 @@ def tasks(tier):
     nb = 16 if thorough else 8
     for i in range(nb):
         out.append({"phase": "convex", "shapes": shapes[i::nb]})
+    # ---- default values and argument forms (options omitted / passed positionally) + the pinned signatures
+    out.append({"phase": "defaults", "what": "signature"})
+    byname = {r[0]: r for r in reps}
+    dsurf = [_desc(nm, alpha, byname[nm][1], byname[nm][2]) for nm, alpha in DEFAULTS_TRI_MESHES] + [zoo[k] for k in DEFAULTS_ZOO_MESHES]
+    # one task = a group of functions on ALL the meshes (one defect = one fingerprint, whatever the mesh)
+    rest = [f for f in DEFAULTS_SURF if f not in ("vertex_normals", "angle_defects") and f not in INTERP_CONT]
+    for fns in (["vertex_normals"], ["angle_defects"] + sorted(INTERP_CONT), rest[:len(rest) // 2], rest[len(rest) // 2:]):
+        out.append({"phase": "defaults", "what": "surface", "meshes": dsurf, "functions": fns})
+    tbyname = {r[0]: r for r in _tet_reps()}
+    out.append({"phase": "defaults", "what": "volume", "functions": DEFAULTS_VOL,
+                "meshes": [(f"{nm}:{alpha}", L.pts_to_json(L.coords(alpha, tbyname[nm][1])), [list(c) for c in tbyname[nm][2]]) for nm, alpha in DEFAULTS_TET_MESHES]})
     # ---- volumes
     for alpha in ("moment", "generic", "lattice"):
         items = [(f"{nm}:{alpha}", L.pts_to_json(L.coords(alpha, n)), [list(c) for c in cl]) for nm, n, cl in _tet_small()]
@@ -1779,6 +1799,382 @@ def run_convex(task, rep: Report):
         cols[mc].flush()
 
 
+# ================================================================================================ phase: defaults
+# DEFAULT VALUES and ARGUMENT FORMS. Every other phase passes each option explicitly, so the value a keyword takes when
+# it is OMITTED, and the position an option has in the signature, would be invisible. Here every function is called
+#   * with each optional argument omitted (one at a time, in every combination of values of the other options, and all
+#     omitted together): the observable behaviour (raise / storage class of the returned attribute / where it is stored /
+#     its values / the whole attribute blackboard afterwards) must equal that of the call passing the DOCUMENTED default;
+#   * with the options passed positionally in the documented order (every prefix length, every option vector): same
+#     behaviour as by keyword.
+# The documented signatures are PINNED below (copied from the signatures of the unchanged tree; where the prose of a
+# docstring contradicts the signature - border_normals / triangle_aspect_ratio 'dense', face_circumcenter 'name' - the
+# signature is pinned and the contradiction reported as a documentation defect). They are NOT read from the library at run
+# time; a separate guard compares them with inspect.signature(): a default that differs from the documented one IS the defect.
+DOC_SIGNATURE = {
+    # function: (required positional parameters, ((optional parameter, documented default), ... in documented order))
+    "degree": (("mesh",), (("name", "degree"), ("persistent", True), ("dense", True))),
+    "angle_defects": (("mesh",), (("zero_border", False), ("name", "angleDefect"), ("persistent", True), ("dense", True))),
+    "vertex_normals": (("mesh",), (("name", "normals"), ("persistent", True), ("interpolation", "area"), ("dense", True), ("custom_fnormals", None))),
+    "border_normals": (("mesh",), (("name", "borderNormals"), ("persistent", True), ("dense", False))),
+    "edge_length": (("mesh",), (("name", "length"), ("persistent", True), ("dense", True))),
+    "edge_middle_point": (("mesh",), (("name", "middle"), ("persistent", True), ("dense", True))),
+    "cotan_weights": (("mesh",), (("name", "cotan_weight"), ("persistent", True), ("dense", True))),
+    "curvature_matrices": (("mesh",), ()),
+    "face_area": (("mesh",), (("name", "area"), ("persistent", True), ("dense", True))),
+    "face_normals": (("mesh",), (("name", "normals"), ("persistent", True), ("dense", True))),
+    "face_barycenter": (("mesh",), (("name", "barycenter"), ("persistent", True), ("dense", True))),
+    "face_circumcenter": (("mesh",), (("name", "circumcenter"), ("persistent", True), ("dense", True))),
+    "triangle_aspect_ratio": (("mesh",), (("name", "aspect_ratio"), ("persistent", True), ("dense", True))),
+    "corner_angles": (("mesh",), (("name", "angles"), ("persistent", True), ("dense", True))),
+    "cotangent": (("mesh",), (("name", "cotan"), ("persistent", True), ("dense", True))),
+    "cell_volume": (("mesh",), (("name", "volume"), ("persistent", True), ("dense", True))),
+    "cell_barycenter": (("mesh",), (("name", "barycenter"), ("persistent", True), ("dense", True))),
+    "cell_faces_on_boundary": (("mesh",), (("name", "boundary"), ("persistent", True), ("dense", False))),
+    "euler_characteristic": (("mesh",), ()),
+    "total_area": (("mesh",), ()),
+    "barycenter": (("mesh",), ()),
+    "mean_edge_length": (("mesh",), (("n", None),)),
+    "mean_face_area": (("mesh",), (("n", None),)),
+    "mean_cell_volume": (("mesh",), (("n", None),)),
+    "interpolate_vertices_to_faces": (("mesh", "vattr", "fattr"), ()),
+    "interpolate_faces_to_vertices": (("mesh", "fattr", "vattr"), (("weight", "uniform"),)),
+    "scatter_vertices_to_corners": (("mesh", "vattr", "cattr"), ()),
+    "scatter_faces_to_corners": (("mesh", "fattr", "cattr"), ()),
+    "average_corners_to_vertices": (("mesh", "cattr", "vattr"), (("weight", "uniform"),)),
+    "average_corners_to_faces": (("mesh", "cattr", "fattr"), (("weight", "uniform"),)),
+}
+# the other values of each option (the default must be told apart from them on at least one input: vacuity guard)
+DEFAULTS_ALT = {"name": ("zz_other",), "zero_border": (True,), "interpolation": ("uniform", "angle"), "custom_fnormals": ("sparse",),
+                "n": ("one", "all_but_one")}
+WEIGHT_ALT = {"interpolate_faces_to_vertices": ("area", "angle", "sum"), "average_corners_to_vertices": ("angle", "sum"),
+              "average_corners_to_faces": ("angle", "sum")}
+INTERP_CONT = {"interpolate_faces_to_vertices": ("faces", "vertices"), "average_corners_to_vertices": ("face_corners", "vertices"),
+               "average_corners_to_faces": ("face_corners", "faces")}
+MEAN_CONT = {"mean_edge_length": "edges", "mean_face_area": "faces", "mean_cell_volume": "cells"}
+DEFAULTS_SURF = [s[0] for s in SURF_SPECS] + ["border_normals", "mean_edge_length", "mean_face_area"] + sorted(INTERP_CONT)
+DEFAULTS_VOL = ["cell_volume", "cell_barycenter", "cell_faces_on_boundary", "mean_cell_volume", "mean_face_area", "mean_edge_length",
+                "face_area", "edge_length", "degree"]
+OBS_FIELDS = ("outcome", "return_type", "stored_as", "blackboard_names", "value", "output", "blackboard")
+OBS_KIND = {"outcome": "mismatch:raise", "return_type": "mismatch:storage_class", "stored_as": "mismatch:stored_as",
+            "blackboard_names": "side_effect:blackboard_names", "value": "mismatch:value", "output": "mismatch:output_attribute",
+            "blackboard": "side_effect:blackboard_values"}
+
+
+DEFAULTS_TRI_MESHES = (("tri5c1", "generic"), ("tri5c2", "lattice"))       # a bordered and a closed triangulation
+DEFAULTS_ZOO_MESHES = ("grid2x3mixed:shear", "cube:shear")                  # triangles + quads with a border, closed quads
+DEFAULTS_TET_MESHES = (("tet5c1", "generic"), ("tet6c0", "moment"))
+
+
+def _alt_values(fname, p, default):
+    if isinstance(default, bool):
+        return (not default,)
+    return WEIGHT_ALT[fname] if p == "weight" else DEFAULTS_ALT[p]
+
+
+def _option_space(fname, two_valued=False):
+    """every vector of option values (documented default + the other values) of a function, as dicts in documented order"""
+    opt = DOC_SIGNATURE[fname][1]
+    sets = [((d,) + _alt_values(fname, p, d))[:2 if two_valued else None] for p, d in opt]
+    return [dict(zip([p for p, _ in opt], combo)) for combo in itertools.product(*sets)]
+
+
+def _approx_eq(a, b):
+    if isinstance(a, float) or isinstance(b, float):
+        try:
+            fa, fb = float(a), float(b)
+        except Exception:
+            return False
+        if isinstance(a, bool) != isinstance(b, bool):
+            return False
+        return (fa != fa and fb != fb) or fa == fb or abs(fa - fb) <= 1e-9 * max(abs(fa), abs(fb))
+    if isinstance(a, (list, tuple)) and isinstance(b, (list, tuple)):
+        return len(a) == len(b) and all(_approx_eq(x, y) for x, y in zip(a, b))
+    if isinstance(a, dict) and isinstance(b, dict):
+        return sorted(a) == sorted(b) and all(_approx_eq(a[k], b[k]) for k in a)
+    return type(a) == type(b) and a == b
+
+
+def _obs_diff(a, b):
+    """first field (in the order of OBS_FIELDS) in which two observations of a call differ, or None"""
+    for f in OBS_FIELDS:
+        if not _approx_eq(a.get(f), b.get(f)):
+            return f
+    return None
+
+
+def _observe(m, o, ret_container, out_attr=None):
+    """JSON-able record of everything a caller can see of one call on the fresh mesh m"""
+    obs = {"outcome": "ok" if o.ok else "raise:" + str(o.exc), "return_type": None, "stored_as": None, "value": None, "output": None}
+    board, where = {}, {}
+    for cn in ("vertices", "edges", "faces", "face_corners", "cells"):
+        cont = getattr(m, cn, None)
+        if cont is None:
+            continue
+        for name in sorted(cont._attr):
+            a = cont._attr[name]
+            r = call(_read, a, len(cont))
+            board[f"{cn}.{name}"] = [type(a).__name__, int(a.elemsize), [list(x) if isinstance(x, tuple) else x for x in r.value] if r.ok else "unreadable:" + str(r.exc)]
+            where[id(a)] = f"{cn}.{name}"
+    obs["blackboard_names"] = sorted(board)
+    obs["blackboard"] = board
+    if o.ok:
+        v = o.value
+        obs["return_type"] = type(v).__name__ if hasattr(v, "elemsize") else "number" if isinstance(_py(v), (int, float)) else type(v).__name__
+        if hasattr(v, "elemsize"):
+            obs["stored_as"] = where.get(id(v))
+            r = call(_read, v, len(getattr(m, ret_container)))
+            obs["value"] = [list(x) if isinstance(x, tuple) else x for x in r.value] if r.ok else "unreadable:" + str(r.exc)
+        else:
+            pv = _py(v)
+            obs["value"] = list(pv) if isinstance(pv, tuple) else pv
+    if out_attr is not None:
+        r = call(_read, out_attr[0], out_attr[1])
+        obs["output"] = [list(x) if isinstance(x, tuple) else x for x in r.value] if r.ok else "unreadable:" + str(r.exc)
+    return obs
+
+
+def _ret_container(fname):
+    if fname in INTERP_CONT:
+        return INTERP_CONT[fname][1]
+    return STORED[fname][0] if fname in STORED else "vertices"
+
+
+def _defaults_call(M, fn, fname, build, V, omit=(), npos=0):
+    """one call of fn on a fresh mesh: the options of V except those in `omit`, the first npos of them positionally"""
+    from mouette.mesh.mesh_attributes import ArrayAttribute
+    m = build()
+    order = [p for p, _ in DOC_SIGNATURE[fname][1]]
+    vals = {}
+    for p in order:
+        if p in omit:
+            continue
+        v = V[p]
+        if p == "custom_fnormals" and v is not None:
+            v = _custom_attr(M, v, len(m.faces))
+        elif p == "n" and v is not None:
+            N = len(getattr(m, MEAN_CONT[fname]))
+            v = 1 if v == "one" else max(1, N - 1)
+        vals[p] = v
+    pre, out_attr = (), None
+    if fname in INTERP_CONT:
+        src, dst = (len(getattr(m, c)) for c in INTERP_CONT[fname])
+        a_in, a_out = ArrayAttribute(float, src), ArrayAttribute(float, dst)
+        for i in range(src):
+            a_in[i] = float((i * i) % 7 + 1)          # NOT constant: the weighting modes give different answers
+        pre, out_attr = (a_in, a_out), (a_out, dst)
+    pos = [vals.pop(p) for p in order[:npos]]
+    o = call(fn, m, *pre, *pos, **vals)
+    return _observe(m, o, _ret_container(fname), out_attr)
+
+
+def _call_text(fname, V, omit=(), npos=0):
+    order = [p for p, _ in DOC_SIGNATURE[fname][1]]
+    args = ["mesh"] + list(DOC_SIGNATURE[fname][0][1:]) + [repr(V[p]) for p in order[:npos]] + \
+           [f"{p}={V[p]!r}" for p in order[npos:] if p not in omit]
+    return f"attributes.{fname}({', '.join(args)})"
+
+
+def _trim(obs):
+    s = {k: v for k, v in obs.items() if k != "blackboard"}
+    s["blackboard"] = {k: [v[0], v[1]] for k, v in obs["blackboard"].items()}
+    return s
+
+
+def defaults_engine(M, rep, found, fname, fn, build, mesh_name, count=True):
+    """Runs the three clauses (omitted / positional / dense selects the storage class) for one function on one mesh.
+    `found` collects {(subcheck, callee): {...}} so that one defect gives one fingerprint over all meshes of the task."""
+    opt = DOC_SIGNATURE[fname][1]
+    order = [p for p, _ in opt]
+    default = dict(opt)
+    if not opt:
+        return
+    space = _option_space(fname)
+    explicit = {}
+
+    def E(V):
+        k = _okey(V)
+        if k not in explicit:
+            explicit[k] = _defaults_call(M, fn, fname, build, V)
+            if count:
+                rep.transitions += 1
+        return explicit[k]
+
+    # ---- the documented default must be told apart from the other values of the option (otherwise the clause is vacuous)
+    for p in order:
+        for V in space:
+            if V[p] == default[p]:
+                for alt in _alt_values(fname, p, default[p]):
+                    if _obs_diff(E(V), E(dict(V, **{p: alt}))) and count:
+                        rep.flag(f"defaults_discriminated:{fname}.{p}")
+    # ---- dense=True <=> numpy storage (ArrayAttribute), dense=False <=> dict storage (Attribute), as every docstring says
+    if "dense" in default:
+        st = found.setdefault(("C07.defaults.dense_selects_storage", fname), {"ran": set(), "failed": {}})
+        for V in space:
+            ob = E(V)
+            if ob["outcome"] != "ok":
+                continue
+            lab = {p: V[p] for p in order if p in ("persistent", "dense")}
+            st["ran"].add(_okey(lab))
+            if count:
+                rep.evaluations += 1
+            if ob["return_type"] != ("ArrayAttribute" if V["dense"] else "Attribute"):
+                st["failed"].setdefault(_okey(lab), {"mesh": mesh_name, "call": _call_text(fname, V), "returned": ob["return_type"],
+                                                      "want": "ArrayAttribute" if V["dense"] else "Attribute"})
+    # ---- each option omitted, one at a time, in every combination of the others; all omitted together
+    st = found.setdefault(("C07.defaults.omitted", fname), {})
+    for p in order:
+        for V in space:
+            if V[p] != default[p]:
+                continue
+            got = _defaults_call(M, fn, fname, build, V, omit=(p,))
+            if count:
+                rep.transitions += 1; rep.evaluations += 1; rep.flag(f"defaults_omitted:{fname}.{p}")
+            f = _obs_diff(got, E(V))
+            if f:
+                old = st.get(p)
+                if old is None or OBS_FIELDS.index(f) < OBS_FIELDS.index(old["field"]):
+                    st[p] = {"field": f, "mesh": mesh_name, "call_with_option_omitted": _call_text(fname, V, omit=(p,)),
+                             "call_with_documented_default": _call_text(fname, V), "documented_default": default[p],
+                             "observed_omitted": _trim(got), "observed_explicit": _trim(E(V))}
+    got = _defaults_call(M, fn, fname, build, default, omit=tuple(order))
+    if count:
+        rep.transitions += 1; rep.evaluations += 1; rep.flag(f"defaults_all_omitted:{fname}")
+    f = _obs_diff(got, E(default))
+    if f and "all" not in st:
+        st["all"] = {"field": f, "mesh": mesh_name, "call_with_option_omitted": _call_text(fname, default, omit=tuple(order)),
+                     "call_with_documented_default": _call_text(fname, default), "observed_omitted": _trim(got),
+                     "observed_explicit": _trim(E(default))}
+    # ---- options passed positionally in the documented order (every prefix) mean the same as passed by keyword
+    st = found.setdefault(("C07.defaults.positional", fname), {})
+    for V in _option_space(fname, two_valued=True):
+        for k in range(1, len(order) + 1):
+            got = _defaults_call(M, fn, fname, build, V, npos=k)
+            if count:
+                rep.transitions += 1; rep.evaluations += 1; rep.flag(f"defaults_positional:{fname}.{order[k - 1]}")
+            f = _obs_diff(got, E(V))
+            if f:
+                if "k" not in st or k < st["k"]:
+                    st.update({"k": k, "field": f, "mesh": mesh_name, "positional_call": _call_text(fname, V, npos=k),
+                               "keyword_call": _call_text(fname, V), "observed_positional": _trim(got), "observed_keyword": _trim(E(V))})
+                break
+
+
+def defaults_flush(rep, found):
+    for (sub, fname), st in sorted(found.items()):
+        callee = "attributes." + fname
+        if sub.endswith("dense_selects_storage"):
+            if st["failed"]:
+                rep.violation(sub, callee, "mismatch:storage_class", _opt_class(set(st["failed"]), st["ran"]),
+                              st["failed"][sorted(st["failed"])[0]])
+        elif sub.endswith("omitted"):
+            singles = sorted(p for p in st if p != "all")
+            for p in singles:
+                d = dict(st[p]); f = d.pop("field")
+                rep.violation(sub, callee, OBS_KIND[f], "omitted=" + p, d)
+            if "all" in st and not singles:        # otherwise the same defect again
+                d = dict(st["all"]); f = d.pop("field")
+                rep.violation(sub, callee, OBS_KIND[f], "omitted=all", d)
+        elif st:
+            d = dict(st); f = d.pop("field"); k = d.pop("k")
+            rep.violation(sub, callee, OBS_KIND[f], "position%d=%s" % (k, DOC_SIGNATURE[fname][1][k - 1][0]), d)
+
+
+def defaults_signature_guard(M, rep):
+    """the pinned table against inspect.signature(): cheap, and a difference is reported as a violation of its own subcheck"""
+    import inspect
+    for fname, (req, opt) in sorted(DOC_SIGNATURE.items()):
+        fn = getattr(M.attributes, fname, None)
+        callee = "attributes." + fname
+        if fn is None:
+            rep.violation("C07.defaults.signature", callee, "mismatch:missing_function", "function", {"function": fname}); continue
+        params = list(inspect.signature(fn).parameters.values())
+        names = [p.name for p in params]
+        want = list(req) + [p for p, _ in opt]
+        rep.evaluations += 1
+        rep.flag("defaults_signature_checked:" + fname)
+        if sorted(names) != sorted(want):
+            odd = sorted(set(names) ^ set(want))
+            rep.violation("C07.defaults.signature", callee, "mismatch:parameter_set", odd[0], {"documented": want, "found": names}); continue
+        if names != want:
+            first = [w for w, n in zip(want, names) if w != n][0]
+            rep.violation("C07.defaults.signature", callee, "mismatch:parameter_order", first, {"documented": want, "found": names})
+        byname = {p.name: p for p in params}
+        for p, d in opt:
+            rep.evaluations += 1
+            got = byname[p].default
+            if got is inspect.Parameter.empty:
+                rep.violation("C07.defaults.signature", callee, "mismatch:default_value", p, {"documented_default": d, "found": "no default (required)"})
+            elif type(got) != type(d) or got != d:
+                rep.violation("C07.defaults.signature", callee, "mismatch:default_value", p, {"documented_default": d, "found": repr(got)})
+        for p in req:
+            if byname[p].default is not inspect.Parameter.empty:
+                rep.count("defaults_required_parameter_has_a_default")       # harmless for callers: counted, not reported
+
+
+def _defaults_engine_selftest(M, rep):
+    """the engine must report a wrapper whose default / parameter order differs from the documented one, and stay silent on the original"""
+    A = M.attributes
+    pts, faces = [[0, 0, 0], [3, 0, 0], [0, 2, 0], [4, 3, 1]], [(0, 1, 2), (1, 3, 2)]
+    build = lambda: F.build_surface(pts, faces)
+    wrong = {
+        "omitted=persistent": lambda mesh, name="degree", persistent=False, dense=True: A.degree(mesh, name=name, persistent=persistent, dense=dense),
+        "omitted=dense": lambda mesh, name="degree", persistent=True, dense=False: A.degree(mesh, name=name, persistent=persistent, dense=dense),
+        "omitted=name": lambda mesh, name="deg", persistent=True, dense=True: A.degree(mesh, name=name, persistent=persistent, dense=dense),
+        "position2=persistent": lambda mesh, name="degree", dense=True, persistent=True: A.degree(mesh, name=name, persistent=persistent, dense=dense),
+    }
+    for want, fn in sorted(wrong.items()):
+        scratch = _ScratchReport()
+        found = {}
+        defaults_engine(M, scratch, found, "degree", fn, build, "selftest", count=False)
+        defaults_flush(scratch, found)
+        if want not in [v[3] for v in scratch.violations]:
+            rep.count("oracle_selftest_failures"); rep.notes.append(f"oracle selftest failed: defaults engine missed a wrapper with {want}: {scratch.violations}")
+    w = lambda mesh, n=1: A.mean_edge_length(mesh, n)
+    scratch, found = _ScratchReport(), {}
+    defaults_engine(M, scratch, found, "mean_edge_length", w, build, "selftest", count=False)
+    defaults_flush(scratch, found)
+    if "omitted=n" not in [v[3] for v in scratch.violations]:
+        rep.count("oracle_selftest_failures"); rep.notes.append("oracle selftest failed: defaults engine missed mean_edge_length(n=1)")
+    assert _obs_diff({"outcome": "ok", "value": [1.0, 2.0]}, {"outcome": "ok", "value": [1.0, 2.0 + 1e-13]}) is None
+    assert _obs_diff({"outcome": "ok", "value": [1.0, 2.0]}, {"outcome": "ok", "value": [1.0, 2.5]}) == "value"
+    assert _obs_diff({"outcome": "ok", "return_type": "Attribute"}, {"outcome": "ok", "return_type": "ArrayAttribute"}) == "return_type"
+    assert _obs_diff({"value": float("nan")}, {"value": float("nan")}) is None and _obs_diff({"value": 1}, {"value": True}) == "value"
+    rep.flag("defaults_engine_selftest_ran")
+
+
+class _ScratchReport:
+    """stand-in for a Report: only remembers violations (used by the self-test of the defaults engine)"""
+    def __init__(self):
+        self.violations = []
+        self.transitions = self.evaluations = 0
+    def violation(self, *a):
+        self.violations.append(a)
+    def flag(self, name):
+        pass
+    def count(self, name, n=1):
+        pass
+
+
+def run_defaults(task, rep: Report):
+    import mouette as M
+    A = M.attributes
+    if task.get("what") == "signature":
+        defaults_signature_guard(M, rep)
+        _defaults_engine_selftest(M, rep)
+        return
+    volume = task.get("what") == "volume"
+    found = {}
+    for name, pts, elems in task["meshes"]:
+        elems = [tuple(e) for e in elems]
+        build = (lambda: F.build_volume(pts, elems)) if volume else (lambda: F.build_surface(pts, elems))
+        rep.traces += 1
+        rep.case(("defaults", pts, elems, task["functions"]))
+        for fname in task["functions"]:
+            defaults_engine(M, rep, found, fname, getattr(A, fname), build, {"mesh": name, "points": pts, "cells" if volume else "faces": [list(e) for e in elems]})
+    defaults_flush(rep, found)
+
+
 # ================================================================================================ entry points
 # ------------------------------------------------------------------------------------- non-convex planar polygons
 # Face quantities (area, normal, barycentre, their sums and means) on planar simple polygons with reflex corners.
@@ -1906,6 +2302,8 @@ def run_task(task, rep: Report):
         run_vol_deform(task, rep)
     elif ph == "convex":
         run_convex(task, rep)
+    elif ph == "defaults":
+        run_defaults(task, rep)
     else:
         raise ValueError(ph)
 
@@ -1934,6 +2332,16 @@ def finish(tier, rep: Report):
         fails.append("a deformation left the points unchanged (the history clause would be vacuous)")
     if not rep.counters.get("deform_recalls_judged"):
         fails.append("no call after a deformation was judged")
+    # ---- default values: every entry of the pinned table was exercised in each form, and told apart from another value
+    if "defaults_engine_selftest_ran" not in rep.flags:
+        fails.append("the self-test of the defaults engine did not run")
+    for fname, (req, opt) in sorted(DOC_SIGNATURE.items()):
+        need = ["defaults_signature_checked:" + fname] + ([f"defaults_all_omitted:{fname}"] if opt else [])
+        for p, _ in opt:
+            need += [f"defaults_omitted:{fname}.{p}", f"defaults_positional:{fname}.{p}", f"defaults_discriminated:{fname}.{p}"]
+        for f in need:
+            if f not in rep.flags:
+                fails.append("default values: coverage flag missing: " + f)
     for kind in ("edge_length", "face_area", "corner_angles", "cotangent", "angle_defects", "vertex_normals", "vol:cell_volume", "degree"):
         if len(rep.outcomes.get(kind, ())) < 2:
             fails.append(f"{kind} produced a single distinct outcome")
